@@ -25,6 +25,7 @@ CONSTANTS Gaps,        \* gaps between packets that keep the connection alive (<
 VARIABLES now, last, up, sends, will, hist,
           fed        \* the client is subscribed to a topic on which somebody else publishes all the time: what the broker
                      \* SENDS to a client says nothing about the client being alive - only what it receives from it counts
+\* (The server's own KeepAlive configuration option is set to 1 s in every run: it is no part of what a client negotiates.)
 \* prior: the connection resumes a stored session (CleanSession 0) whose earlier connection had negotiated another
 \* keep-alive ("long": 60 s): the keep-alive is a matter of the connection, what counts is this CONNECT's value;
 \* "rival": while this connection is up, another one presents the same client identifier (CleanSession 1, no will, long
